@@ -59,6 +59,9 @@ ClientName(S, c) ==
     LET k == S.conns[c] IN
     IF k.nick # <<>> THEN k.nick[1] ELSE IF k.uname # <<>> THEN k.uname[1] ELSE c
 Num(S, c, code, a) == [to |-> c, k |-> "n", c |-> code, cl |-> ClientName(S, c), src |-> "", a |-> a]
+(* the addressee field of 433 is not compared: while a registration races with the owner of  *)
+(* the nickname it is the claimed nick or the user/host name depending on timing           *)
+Num433(c, n) == [to |-> c, k |-> "n", c |-> "433", cl |-> "", src |-> "", a |-> <<n>>]
 Srv(c, verb, a) == [to |-> c, k |-> "s", c |-> verb, cl |-> "", src |-> "", a |-> a]
 Rel(to, src, verb, a) == [to |-> to, k |-> "r", c |-> verb, cl |-> "", src |-> src, a |-> a]
 Eof(c) == Srv(c, "EOF", <<>>)
@@ -196,8 +199,11 @@ Authenticate(S, c) ==
          LET S1 == SetConn(S, c, [k EXCEPT !.quit = TRUE]) IN
          Res(Teardown(S1, c), << Num(S, c, "464", <<>>), Eof(c) >>)
     ELSE IF n \in DOMAIN S.users
-    THEN (* the nickname was taken in the meantime: refused, nothing else happens *)
-         Res(S, << Num(S, c, "433", <<n>>) >>)
+    THEN (* the nickname was taken in the meantime: refused as a NICK naming a used nickname is - *)
+         (* the claim is void, nothing else happens                                            *)
+         LET k1 == [k EXCEPT !.nick = <<>>]
+             S1 == SetConn(S, c, [k1 EXCEPT !.src = SrcOf(k1, c)])
+         IN Res(S1, << Num433(c, n) >>)
     ELSE
     LET modes == S.cfg.default_modes \cup (IF ui # 0 THEN {"r"} ELSE {})
         u == [host |-> c, uname |-> k.uname[1], real |-> k.real[1], src |-> k.src,
@@ -252,13 +258,13 @@ RenameIn(ch, old, new) ==
 HNick(S, c, n) ==
     LET k == S.conns[c] IN
     IF ~k.authed
-    THEN IF n \in DOMAIN S.users THEN Res(S, << Num(S, c, "433", <<n>>) >>)
+    THEN IF n \in DOMAIN S.users THEN Res(S, << Num433(c, n) >>)
          ELSE LET k1 == [k EXCEPT !.nick = <<n>>] IN
               Authenticate(SetConn(S, c, [k1 EXCEPT !.src = SrcOf(k1, c)]), c)
     ELSE
     LET old == k.nick[1] IN
     IF n = old THEN Res(S, <<>>)
-    ELSE IF n \in DOMAIN S.users THEN Res(S, << Num(S, c, "433", <<n>>) >>)
+    ELSE IF n \in DOMAIN S.users THEN Res(S, << Num433(c, n) >>)
     ELSE
     LET u == S.users[old]
         k1 == [k EXCEPT !.nick = <<n>>]
